@@ -190,6 +190,29 @@ func runC07(c *Ctx) {
 			map[string]interface{}{"paths": len(res)})
 	}
 
+	// ---- guarantee side of the advance contract for composite (non-AMF0) codec types
+	guaranteed := map[*types.Named]bool{}
+	sizeGuaranteeCheck = func(T *types.Named) bool {
+		if v, ok := guaranteed[T]; ok {
+			return v
+		}
+		pkg := strings.TrimPrefix(strings.TrimPrefix(T.Obj().Pkg().Path(), core.ModulePath), "/")
+		sz := P.Func(pkg, "(*"+T.Obj().Name()+").Size")
+		um := P.Func(pkg, "(*"+T.Obj().Name()+").UnmarshalBinary")
+		key := pkg + "|(*" + T.Obj().Name() + ").UnmarshalBinary|size-within-consumed"
+		if sz == nil || um == nil {
+			guaranteed[T] = false
+			return false
+		}
+		ok, why := sizeCoveredByDecode(P, sz, um)
+		guaranteed[T] = ok
+		R.Check(ok, "C07.bounds", key, P.Pos(um.Pos()),
+			"after a successful decode Size() counts only members that were decoded from the input (or cleared), so callers may advance by Size()",
+			why+": a caller slicing by Size() after a successful decode can slice past the end of the input", nil)
+		return ok
+	}
+	defer func() { sizeGuaranteeCheck = nil }()
+
 	// ---- every remaining site: guard matching
 	var fns []*ssa.Function
 	for fn := range reach {
@@ -236,8 +259,212 @@ func runC07(c *Ctx) {
 	checkPanics(c, reach, roots)
 	checkEphemeralKeyValidated(c)
 	checkFormatFact(c)
+	// the guarantee side of the contract of rtmp.(*Protocol).readMessagePayload|make#1 (len(Payload) <= payloadLength while a
+	// message is attached): a changed length and a type-0 header inside an unfinished message are rejected, and a
+	// completed message is detached from its chunk stream
+	headerDecodeChecksFiltered(c, "C07.bounds", false, func(name string) bool {
+		return name == "reject:type0-inside-unfinished-message" || name == "reject:length-changed-mid-message"
+	})
+	checkMessageDetached(c, "C07.bounds")
+	// the guarantee side of the advance contract for AMF0 values (UnmarshalBinary(p) == nil => Size() <= len(p), the
+	// decoder having consumed exactly Size() bytes): every AMF0 decoder on its own encodings, nested containers included
+	amfDecodeChecks(c, newAmfEngine(c), "C07.bounds", "C07.bounds", func(d amfDec) bool { return d.expErr })
 	checkCplx(c)
 	checkTerm(c, fns)
+	var all []*ssa.Function
+	for fn := range reach {
+		if fn.Blocks != nil {
+			all = append(all, fn)
+		}
+	}
+	sort.Slice(all, func(i, j int) bool { return core.QualName(all[i]) < core.QualName(all[j]) })
+	checkLockReleased(c, all)
+	checkLoopCarriedCopy(c, all)
+}
+
+// checkLockReleased (part of "always returns"): a mutex taken while decoding is released on every path to a return
+// of the function that took it - otherwise the next message that needs it never returns.
+func checkLockReleased(c *Ctx, fns []*ssa.Function) {
+	P, R := c.P, c.R
+	lockName := func(cc *ssa.CallCommon) (string, ssa.Value) {
+		f := cc.StaticCallee()
+		if f == nil || f.Pkg == nil || f.Pkg.Pkg.Path() != "sync" || len(cc.Args) == 0 {
+			return "", nil
+		}
+		return f.Name(), cc.Args[0]
+	}
+	counts := map[string]int{}
+	n := 0
+	for _, fn := range fns {
+		core.EachInstr(fn, func(in ssa.Instruction) {
+			call, ok := in.(*ssa.Call)
+			if !ok {
+				return
+			}
+			name, mu := lockName(&call.Call)
+			if name != "Lock" && name != "RLock" {
+				return
+			}
+			want := "Unlock"
+			if name == "RLock" {
+				want = "RUnlock"
+			}
+			mp := core.Path(mu)
+			n++
+			key := ordKey(counts, core.QualName(fn)+"|"+name+"("+trimRoot(mp)+")")
+			releases := func(x ssa.Instruction) bool {
+				var cc *ssa.CallCommon
+				switch y := x.(type) {
+				case *ssa.Call:
+					cc = &y.Call
+				case *ssa.Defer:
+					cc = &y.Call
+				}
+				if cc == nil {
+					return false
+				}
+				nm, m2 := lockName(cc)
+				return nm == want && core.Path(m2) == mp
+			}
+			// a deferred release registered before the acquisition covers every exit as well
+			for _, b := range fn.Blocks {
+				for _, x := range b.Instrs {
+					if d, isD := x.(*ssa.Defer); isD && releases(d) && (b.Dominates(call.Block()) && (b != call.Block() || core.Precedes(d, call))) {
+						R.OK("C07.term", key, P.InstrPos(call), "released by a deferred "+want+" registered before the acquisition")
+						return
+					}
+				}
+			}
+			var bad *ssa.Return
+			seen := map[*ssa.BasicBlock]bool{}
+			var walk func(b *ssa.BasicBlock, from int)
+			walk = func(b *ssa.BasicBlock, from int) {
+				if bad != nil {
+					return
+				}
+				for _, x := range b.Instrs[from:] {
+					if releases(x) {
+						return
+					}
+					if r, isR := x.(*ssa.Return); isR {
+						bad = r
+						return
+					}
+				}
+				for _, s := range b.Succs {
+					if !seen[s] {
+						seen[s] = true
+						walk(s, 0)
+					}
+				}
+			}
+			walk(call.Block(), core.InstrIndex(call)+1)
+			if bad == nil {
+				R.OK("C07.term", key, P.InstrPos(call), "every path from the acquisition to a return releases it ("+want+" or a deferred "+want+")")
+			} else {
+				R.Fail("C07.term", key, P.InstrPos(call), fmt.Sprintf("the mutex %s taken here is still held at the return at %s: the next decode that needs it never returns", trimRoot(mp), P.InstrPos(bad)), nil)
+			}
+		})
+	}
+	R.Extra["mutex_acquisitions_in_decoder_reach"] = n
+}
+
+// checkLoopCarriedCopy (super-linear shape): a loop must not rebuild its loop-carried string or slice by copying it
+// (s = s[:i] + s[j:], x = append(x[:i], x[j:]...)) once per iteration - each iteration is then linear in the input and
+// the loop quadratic.
+func checkLoopCarriedCopy(c *Ctx, fns []*ssa.Function) {
+	P, R := c.P, c.R
+	counts := map[string]int{}
+	nLoops := 0
+	for _, fn := range fns {
+		for _, hdr := range fn.Blocks {
+			isHeader := false
+			for _, pr := range hdr.Preds {
+				if hdr.Dominates(pr) {
+					isHeader = true
+				}
+			}
+			if !isHeader {
+				continue
+			}
+			nLoops++
+			inLoop := loopBlocks(fn, hdr)
+			bad := ""
+			for _, in := range hdr.Instrs {
+				phi, ok := in.(*ssa.Phi)
+				if !ok {
+					break
+				}
+				bt, isStr := phi.Type().Underlying().(*types.Basic)
+				_, isSl := phi.Type().Underlying().(*types.Slice)
+				if !(isSl || (isStr && bt.Info()&types.IsString != 0)) {
+					continue
+				}
+				for i, pr := range hdr.Preds {
+					if !inLoop[pr] {
+						continue
+					}
+					if w := rebuiltFrom(phi.Edges[i], phi, 0); w != "" {
+						bad = phi.Comment + ": " + w
+					}
+				}
+			}
+			key := ordKey(counts, core.QualName(fn)+"|loop")
+			if bad != "" {
+				R.Fail("C07.cplx", key+"|no-loop-carried-copy", P.Pos(hdr.Instrs[0].Pos()), "the loop rebuilds its loop-carried value by copying it on every iteration ("+bad+"): each iteration is linear in the input, the loop quadratic", nil)
+			}
+		}
+	}
+	R.Check(nLoops >= 20, "C07.cplx", "decoder-reach|loops|no-loop-carried-copy", "-",
+		fmt.Sprintf("none of the %d loops in the %d module functions reachable from the decoder entry points rebuilds its loop-carried string/slice by concatenation", nLoops, len(fns)),
+		"fewer loops than confirmed by hand were analysed", nil)
+}
+
+// rebuiltFrom: v is a concatenation (string +, append of a spread slice) one of whose operands is a piece of phi.
+func rebuiltFrom(v ssa.Value, phi *ssa.Phi, d int) string {
+	if d > 6 {
+		return ""
+	}
+	piece := func(x ssa.Value) bool {
+		for i := 0; i < 4; i++ {
+			x = core.StripConv(x)
+			if x == ssa.Value(phi) {
+				return true
+			}
+			sl, ok := x.(*ssa.Slice)
+			if !ok {
+				return false
+			}
+			x = sl.X
+		}
+		return false
+	}
+	switch x := core.StripConv(v).(type) {
+	case *ssa.BinOp:
+		if x.Op == token.ADD {
+			if _, isStr := x.Type().Underlying().(*types.Basic); isStr && (piece(x.X) || piece(x.Y)) {
+				return "string concatenation with a piece of itself"
+			}
+		}
+	case *ssa.Call:
+		if b, ok := x.Call.Value.(*ssa.Builtin); ok && b.Name() == "append" && len(x.Call.Args) == 2 {
+			// append(head, tail...) where both are pieces of the carried value (removal of an element by copying the tail)
+			if piece(x.Call.Args[0]) && piece(x.Call.Args[1]) {
+				if sl, isSl := core.StripConv(x.Call.Args[1]).(*ssa.Slice); isSl && sl.Low != nil {
+					return "append of its own tail onto its own head"
+				}
+			}
+		}
+	case *ssa.Phi:
+		for _, e := range x.Edges {
+			if e != ssa.Value(phi) {
+				if w := rebuiltFrom(e, phi, d+1); w != "" {
+					return w
+				}
+			}
+		}
+	}
+	return ""
 }
 
 // advanceContract discharges p[X.Size():] when it is dominated by a successful X.UnmarshalBinary(p) on the same
@@ -277,6 +504,12 @@ func advanceContract(site core.BoundSite) string {
 	if name != "Size" || recv == nil {
 		return ""
 	}
+	// the guarantee side of the contract: AMF0 values (C05.consumed) or a composite whose Size() is covered by its decoder
+	if why := sizeGuarantee(recv); why == "" {
+		return ""
+	} else {
+		helper += "; " + why
+	}
 	rp := core.Path(recv)
 	fn := site.Fn
 	found := ""
@@ -303,6 +536,128 @@ func advanceContract(site core.BoundSite) string {
 		}
 	})
 	return found
+}
+
+// sizeGuaranteeCheck is installed by runC07: it decides, for a composite (non-AMF0) codec type, whether a successful
+// UnmarshalBinary implies Size() <= bytes consumed, and reports the obligation once per type.
+var sizeGuaranteeCheck func(T *types.Named) bool
+
+// sizeGuarantee: who guarantees "UnmarshalBinary(p) == nil  =>  Size() <= len(p)" for this receiver.
+func sizeGuarantee(recv ssa.Value) string {
+	t := recv.Type()
+	if pt, ok := t.Underlying().(*types.Pointer); ok {
+		t = pt.Elem()
+	}
+	n, ok := t.(*types.Named)
+	if !ok {
+		return ""
+	}
+	if n.Obj().Pkg() != nil && strings.HasSuffix(n.Obj().Pkg().Path(), "/amf0") {
+		return "AMF0 value"
+	}
+	if sizeGuaranteeCheck != nil && sizeGuaranteeCheck(n) {
+		return "composite " + n.Obj().Name() + ": every member Size() counts is decoded or cleared on every successful decode"
+	}
+	return ""
+}
+
+// sizeCoveredByDecode: T.Size() is a sum of member Size() calls only, and for each such member every path of
+// T.UnmarshalBinary to a return that can carry a nil error passes a successful member.UnmarshalBinary or stores nil
+// into the member (so a member left over from the constructor is never counted without having been consumed).
+func sizeCoveredByDecode(P *core.Program, sz, um *ssa.Function) (bool, string) {
+	calls := memberCalls(sz, "Size")
+	allowed := map[ssa.Value]bool{}
+	for _, mc := range calls {
+		allowed[mc.call] = true
+	}
+	var sumOnly func(v ssa.Value, d int) bool
+	sumOnly = func(v ssa.Value, d int) bool {
+		if d > 12 {
+			return false
+		}
+		switch x := v.(type) {
+		case *ssa.Const:
+			k, ok := core.ConstInt(x)
+			return ok && k == 0
+		case *ssa.Call:
+			return allowed[x]
+		case *ssa.BinOp:
+			return x.Op == token.ADD && sumOnly(x.X, d+1) && sumOnly(x.Y, d+1)
+		case *ssa.Phi:
+			for _, e := range x.Edges {
+				if !sumOnly(e, d+1) {
+					return false
+				}
+			}
+			return true
+		}
+		return false
+	}
+	for _, r := range core.Returns(sz) {
+		if len(r.Results) != 1 || !sumOnly(r.Results[0], 0) {
+			return false, "Size() of " + core.QualName(sz) + " is not a plain sum of member sizes"
+		}
+	}
+	if len(calls) == 0 {
+		return false, "Size() of " + core.QualName(sz) + " counts no member"
+	}
+	ei := core.ErrResultIndex(um)
+	if ei < 0 {
+		return false, "decoder returns no error"
+	}
+	failure := func(r *ssa.Return) bool {
+		switch x := core.ReturnOperand(r, ei).(type) {
+		case *ssa.Call:
+			return true // a wrapped or fresh error, built on a path on which the member decode failed
+		case *ssa.MakeInterface:
+			return true
+		default:
+			_ = x
+		}
+		return false
+	}
+	for _, mc := range calls {
+		m := mc.path
+		through := func(in ssa.Instruction) bool {
+			switch x := in.(type) {
+			case *ssa.Call:
+				for _, u := range memberCallsOf(x, "UnmarshalBinary") {
+					if u == m {
+						return true
+					}
+				}
+			case *ssa.Store:
+				if core.IsNilConst(x.Val) && trimRoot(core.Path(x.Addr)) == m {
+					return true
+				}
+			}
+			return false
+		}
+		ok, ret := core.MustPassThrough(um.Blocks[0], through, func(r *ssa.Return) bool { return !failure(r) })
+		if !ok {
+			return false, fmt.Sprintf("Size() counts member %s, but %s can succeed (return at %s) without decoding or clearing it: a value left by the constructor is counted although no byte of it was consumed", m, core.QualName(um), P.InstrPos(ret))
+		}
+	}
+	return true, ""
+}
+
+// memberCallsOf: the receiver-relative member path of a call to the named method, if it is one.
+func memberCallsOf(call *ssa.Call, meth string) []string {
+	var recv ssa.Value
+	name := ""
+	if call.Call.IsInvoke() {
+		recv, name = call.Call.Value, call.Call.Method.Name()
+	} else if f := call.Call.StaticCallee(); f != nil && f.Signature.Recv() != nil && len(call.Call.Args) > 0 {
+		recv, name = call.Call.Args[0], f.Name()
+	}
+	if name != meth || recv == nil {
+		return nil
+	}
+	p := core.Path(recv)
+	if i := strings.Index(p, "."); i >= 0 {
+		return []string{p[i+1:]}
+	}
+	return nil
 }
 
 // isSizeHelper: a module function of one interface parameter whose every result is either the parameter's Size()
@@ -1002,68 +1357,211 @@ var c07Loops = map[string]string{
 	"amf0.(*objectBase).unmarshal|loop#2": "same cursor progress as loop#1, and bounded by maxElems appended properties",
 }
 
-func loopVariant(P *core.Program, fn *ssa.Function, hdr *ssa.BasicBlock) string {
-	// blocks of the loop: those dominated by hdr that can reach hdr
-	inLoop := map[*ssa.BasicBlock]bool{}
-	for _, b := range fn.Blocks {
-		if hdr.Dominates(b) && core.ReachableBlocks(b, nil)[hdr] {
-			inLoop[b] = true
+// loopBlocks is the natural loop of hdr: the header and every block that reaches one of its back edges without
+// passing the header.
+func loopBlocks(fn *ssa.Function, hdr *ssa.BasicBlock) map[*ssa.BasicBlock]bool {
+	inLoop := map[*ssa.BasicBlock]bool{hdr: true}
+	var work []*ssa.BasicBlock
+	for _, pr := range hdr.Preds {
+		if hdr.Dominates(pr) && !inLoop[pr] {
+			inLoop[pr] = true
+			work = append(work, pr)
 		}
 	}
-	// (1) induction variable: phi in hdr with an edge phi+const (const != 0) and an exit test comparing it
+	for len(work) > 0 {
+		b := work[len(work)-1]
+		work = work[:len(work)-1]
+		for _, pr := range b.Preds {
+			if !inLoop[pr] {
+				inLoop[pr] = true
+				work = append(work, pr)
+			}
+		}
+	}
+	return inLoop
+}
+
+// everyCyclePasses: every path from the loop header back to the header executes an instruction satisfying pred.
+func everyCyclePasses(hdr *ssa.BasicBlock, inLoop map[*ssa.BasicBlock]bool, pred func(ssa.Instruction) bool) bool {
+	seen := map[*ssa.BasicBlock]bool{}
+	ok := true
+	var walk func(b *ssa.BasicBlock)
+	walk = func(b *ssa.BasicBlock) {
+		if !ok || seen[b] {
+			return
+		}
+		seen[b] = true
+		for _, in := range b.Instrs {
+			if pred(in) {
+				return
+			}
+		}
+		for _, s := range b.Succs {
+			if s == hdr {
+				ok = false
+				return
+			}
+			if inLoop[s] {
+				walk(s)
+			}
+		}
+	}
+	walk(hdr)
+	return ok
+}
+
+// dependsOn: v is computed from root (through at most d value-preserving or arithmetic steps, len() and loads).
+func dependsOn(v, root ssa.Value, d int) bool {
+	if v == root {
+		return true
+	}
+	if d <= 0 {
+		return false
+	}
+	switch x := v.(type) {
+	case *ssa.BinOp:
+		return dependsOn(x.X, root, d-1) || dependsOn(x.Y, root, d-1)
+	case *ssa.UnOp:
+		return dependsOn(x.X, root, d-1)
+	case *ssa.Convert:
+		return dependsOn(x.X, root, d-1)
+	case *ssa.ChangeType:
+		return dependsOn(x.X, root, d-1)
+	case *ssa.Slice:
+		return dependsOn(x.X, root, d-1)
+	case *ssa.Phi:
+		for _, e := range x.Edges {
+			if dependsOn(e, root, d-1) {
+				return true
+			}
+		}
+	case *ssa.Call:
+		if b, ok := x.Call.Value.(*ssa.Builtin); ok && (b.Name() == "len" || b.Name() == "cap") {
+			return dependsOn(x.Call.Args[0], root, d-1)
+		}
+	}
+	return false
+}
+
+// exitTests: some conditional branch of the loop that leaves it tests a value computed from phi.
+func exitTests(hdr *ssa.BasicBlock, inLoop map[*ssa.BasicBlock]bool, phi *ssa.Phi) bool {
+	for b := range inLoop {
+		if len(b.Instrs) == 0 {
+			continue
+		}
+		iff, ok := b.Instrs[len(b.Instrs)-1].(*ssa.If)
+		if !ok {
+			continue
+		}
+		leaves := false
+		for _, s := range b.Succs {
+			if !inLoop[s] {
+				leaves = true
+			}
+		}
+		if leaves && dependsOn(iff.Cond, phi, 6) {
+			return true
+		}
+	}
+	return false
+}
+
+// shrunk: v is phi advanced by at least one element: a chain of s[k:] steps from phi with one k >= 1 (merges of such).
+func shrunk(v ssa.Value, phi *ssa.Phi, strict bool, d int) bool {
+	if d > 8 {
+		return false
+	}
+	switch x := core.StripConv(v).(type) {
+	case *ssa.Phi:
+		if x == phi {
+			return strict
+		}
+		if len(x.Edges) == 0 {
+			return false
+		}
+		for _, e := range x.Edges {
+			if !shrunk(e, phi, strict, d+1) {
+				return false
+			}
+		}
+		return true
+	case *ssa.Slice:
+		if x.Low == nil || x.High != nil {
+			return false
+		}
+		if atLeastOne(x.Low) {
+			return shrunk(x.X, phi, true, d+1)
+		}
+		if core.NonNegative(x.Low) {
+			return shrunk(x.X, phi, strict, d+1)
+		}
+	}
+	return false
+}
+
+func loopVariant(P *core.Program, fn *ssa.Function, hdr *ssa.BasicBlock) string {
+	inLoop := loopBlocks(fn, hdr)
+	var back []int // indexes of the header's predecessors that are back edges
+	for i, pr := range hdr.Preds {
+		if inLoop[pr] {
+			back = append(back, i)
+		}
+	}
+	// (1) induction variable / (2) shrinking cursor: on EVERY back edge the header phi has moved, and an exit tests it
 	for _, in := range hdr.Instrs {
 		phi, ok := in.(*ssa.Phi)
 		if !ok {
 			break
 		}
-		for _, e := range phi.Edges {
-			if incrOf(e, phi, 0) {
-				return "counter " + phi.Comment + " moves by a positive constant towards the loop bound"
+		up, down, cur := true, true, true
+		for _, i := range back {
+			e := phi.Edges[i]
+			if !incrOf(e, phi, 0) {
+				up = false
 			}
-			if bo, ok := e.(*ssa.BinOp); ok && bo.Op == token.SUB && bo.X == ssa.Value(phi) {
-				if k, isK := core.ConstInt(bo.Y); isK && k > 0 {
-					return "counter " + phi.Comment + " decreases by a constant towards the loop bound"
-				}
+			if bo, ok := e.(*ssa.BinOp); !(ok && bo.Op == token.SUB && bo.X == ssa.Value(phi) && constPositive(bo.Y)) {
+				down = false
 			}
+			if !shrunk(e, phi, false, 0) {
+				cur = false
+			}
+		}
+		if len(back) == 0 || !exitTests(hdr, inLoop, phi) {
+			continue
+		}
+		switch {
+		case up:
+			return "counter " + phi.Comment + " grows by a positive constant on every iteration and an exit tests it"
+		case down:
+			return "counter " + phi.Comment + " decreases by a positive constant on every iteration and an exit tests it"
+		case cur:
+			return "the cursor " + phi.Comment + " shrinks by at least one element on every iteration and an exit tests its length"
 		}
 	}
-	// range loop shape: i = phi; i+1 compared in header
-	for b := range inLoop {
-		for _, in := range b.Instrs {
-			// (2) shrinking cursor: a phi in the header receives s[k:] of itself with k >= 1 (constant or guarded positive)
-			if sl, ok := in.(*ssa.Slice); ok && sl.Low != nil {
-				if _, isPhi := core.StripConv(sl.X).(*ssa.Phi); isPhi || true {
-					if atLeastOne(sl.Low) && feedsHeaderPhi(sl, hdr) {
-						return "the cursor slice shrinks by at least one byte per iteration"
-					}
-				}
-			}
-			// (3) transport progress: the iteration consumes input or returns
-			if call, ok := in.(*ssa.Call); ok {
-				name := core.CalleeName(&call.Call)
-				switch {
-				case strings.Contains(name, "ReadFull"), strings.Contains(name, "CopyN"), strings.Contains(name, "binary.Read"),
-					strings.HasSuffix(name, ".Scan"), strings.HasSuffix(name, ".ReadMessage"), strings.HasSuffix(name, ".advanceFrame"),
-					strings.HasSuffix(name, ".readBasicHeader"), strings.HasSuffix(name, ".Read"):
-					return "every iteration reads from the transport (ends with the input) or returns"
-				}
-				if call.Call.IsInvoke() && call.Call.Method.Name() == "Read" {
-					return "every iteration reads from the transport (ends with the input) or returns"
-				}
-			}
+	// (3) transport progress: every iteration reads from the transport (which ends) or returns
+	isRead := func(in ssa.Instruction) bool {
+		call, ok := in.(*ssa.Call)
+		if !ok {
+			return false
 		}
+		name := core.CalleeName(&call.Call)
+		switch {
+		case strings.Contains(name, "ReadFull"), strings.Contains(name, "CopyN"), strings.Contains(name, "binary.Read"),
+			strings.HasSuffix(name, ".Scan"), strings.HasSuffix(name, ".ReadMessage"), strings.HasSuffix(name, ".advanceFrame"),
+			strings.HasSuffix(name, ".readBasicHeader"), strings.HasSuffix(name, ".Read"):
+			return true
+		}
+		return call.Call.IsInvoke() && call.Call.Method.Name() == "Read"
 	}
-	// (4) range over a collection (index compared with a length taken before the loop)
-	for _, in := range hdr.Instrs {
-		if bo, ok := in.(*ssa.BinOp); ok && bo.Op == token.LSS {
-			if add, ok := bo.X.(*ssa.BinOp); ok && add.Op == token.ADD {
-				if _, isPhi := add.X.(*ssa.Phi); isPhi {
-					return "range over a finite collection"
-				}
-			}
-		}
+	if everyCyclePasses(hdr, inLoop, isRead) {
+		return "every iteration reads from the transport (ends with the input) or returns"
 	}
 	return ""
+}
+
+func constPositive(v ssa.Value) bool {
+	k, ok := core.ConstInt(v)
+	return ok && k > 0
 }
 
 // incrOf: e is phi plus a positive constant, possibly through inner phis/additions of non-negative constants.
